@@ -1,0 +1,42 @@
+//go:build verif
+// +build verif
+
+// Verification hook for the block store check (add-only, compiled only with -tags verif): run the real
+// insertGenesisBlock() as the first thing in the process, on stores wrapped by the harness, so that the
+// order of its store writes can be recorded and a first start cut after any of them. It does not
+// install the chain object; follow it by VerifBCRestart.
+package core
+
+import (
+	"strconv"
+
+	"com.tuntun.rangers/node/src/common"
+	"com.tuntun.rangers/node/src/middleware/db"
+	"com.tuntun.rangers/node/src/middleware/log"
+	"com.tuntun.rangers/node/src/middleware/types"
+	"com.tuntun.rangers/node/src/service"
+	lru "github.com/hashicorp/golang-lru"
+)
+
+// VerifBCGenesisFirst sets the loggers and the consensus helper as VerifBCInit does and then calls
+// insertGenesisBlock() on wrap(prefix, store) of the three index stores.
+func VerifBCGenesisFirst(helper types.ConsensusHelper, wrap func(prefix string, d db.Database) db.Database) {
+	idx := strconv.Itoa(common.InstanceIndex)
+	logger = log.GetLoggerByIndex(log.CoreLogConfig, idx)
+	txLogger = log.GetLoggerByIndex(log.TxLogConfig, idx)
+	syncLogger = log.GetLoggerByIndex(log.SyncLogConfig, idx)
+	syncHandleLogger = log.GetLoggerByIndex(log.SyncHandleLogConfig, idx)
+	rewardLog = log.GetLoggerByIndex(log.RewardLogConfig, idx)
+	consensusHelper = helper
+	chain := &blockChain{}
+	chain.transactionPool = service.GetTransactionPool()
+	chain.topBlocks, _ = lru.New(100)
+	chain.futureBlocks, _ = lru.New(topBlocksCacheSize)
+	chain.verifiedBlocks, _ = lru.New(20)
+	chain.verifiedBodyCache, _ = lru.New(10)
+	h, _ := db.NewDatabase(hashDBPrefix)
+	t, _ := db.NewDatabase(heightDBPrefix)
+	v, _ := db.NewDatabase(verifyHashDBPrefix)
+	chain.hashDB, chain.heightDB, chain.verifyHashDB = wrap(hashDBPrefix, h), wrap(heightDBPrefix, t), wrap(verifyHashDBPrefix, v)
+	chain.insertGenesisBlock()
+}
